@@ -205,7 +205,7 @@ pub struct Caps {
 pub fn legacy_ok(p: &P) -> bool {
     match p {
         P::Done | P::Event(_) | P::Notify(_) | P::Req(_) | P::Stream(_) | P::ReqReq(..) | P::Join(..)
-        | P::Select(..) | P::Burst(..) | P::SpawnAfter(..) | P::HandOff(..) => true,
+        | P::Select(..) | P::Burst(..) | P::SpawnAfter(..) | P::HandOff(..) | P::StreamHandOff(..) => true,
         P::Trigger(_, q) => legacy_ok(q),
         // events of the sub-program go through `Capability::map_event` (child-app composition)
         P::MapEvent(q) => legacy_ok(q),
@@ -308,6 +308,27 @@ pub fn run_legacy(p: &P, caps: &Caps) {
                 match futures::future::select(l, r).await {
                     futures::future::Either::Left((v, _)) => a.update_app(Event::got(s, v)),
                     futures::future::Either::Right((w, _)) => a.update_app(Event::got(t, w)),
+                }
+            });
+        }
+        P::StreamHandOff(s, u) => {
+            let (a, b) = (ca.clone(), cb.clone());
+            ca.spawn(async move {
+                let mut st: futures::stream::BoxStream<'static, u32> = if is_b(s.label) {
+                    Box::pin(b.stream_from_shell(OpB::make(s.label, 0)).map(OpB::val))
+                } else {
+                    Box::pin(a.stream_from_shell(OpA::make(s.label, 0)).map(OpA::val))
+                };
+                if let Some(v) = st.next().await {
+                    a.update_app(Event::got(s, v));
+                    let a2 = a.clone();
+                    a.spawn(async move {
+                        while let Some(v) = st.next().await {
+                            a2.update_app(Event::got(s, v));
+                        }
+                    });
+                    let x = lreq(&a, &b, u, 0).await;
+                    a.update_app(Event::got(u, x));
                 }
             });
         }
